@@ -26,7 +26,7 @@ TEXT = {
  'C19': ('Bounded model checking of BlockTable copy construction / assignment with the source destroyed afterwards: CBMC\'s deallocated-object check decides independence; whole-block copies outside the bound.', '4 C19'),
  'C17': ('Solver verdicts (z3/cvc5, integer encoding with explicit wrap) over ALL 64-bit inputs of the loop-free timestamp kernels inside the stated preconditions; encoding regenerated from the IR and validated against a native build each run.', '4 C17, 2.4'),
 }
-NOTE = 'Trusted: clang-14 lowering, tools/ir2c.py (validated per run by native differential execution), model std/boost headers in stubs/, CBMC 6.11 + cadical; bounds in evidence; hooked window sizes instead of 2048/65535.'
+NOTE = 'Trusted: clang-14 lowering, tools/ir2c.py (validated per run by native differential execution), model std/boost headers in stubs/, CBMC 6.11 + cadical; bounds in evidence (every claim is bounded: loop unrollings with --unwinding-assertions, container capacities with model-bound assertions, sizes per obligation); hooked codec window sizes instead of 2048/65535; obligations without a verdict (time-out / memory) are printed INCONCLUSIVE, counted in the evidence and are not part of the claim; translation validation is skipped for units with redirected (contract) calls; counterexamples are reported only after they replay natively. Details and deviations from the plan: DESIGN.md section 9.'
 TECH = {'C17': 'symbolic execution of LLVM IR to QF_NIA terms + z3/cvc5 (unsat = holds for all 64-bit values)'}
 
 def main():
